@@ -111,8 +111,13 @@ func cmdC10(args []string) error {
 			w = []string{"L", "GR", "G1", "GR"}
 		}
 		if i%8 == 3 {
-			// the KDC is away while the TGT runs out (its background refresh fails), and back afterwards
+			// the KDC is away while the TGT runs out (its background refresh fails), and back afterwards; alternately with a TGT that
+			// could still have been renewed by its renew-till time, and with one that cannot be renewed at all
 			w = []string{"L", "G1", "O", "W", "W", "W", "W", "W", "G2", "U", "G2", "G1"}
+			c.Renewable, c.KDCRenewable, c.RenewLife = i%16 == 3, i%16 == 3, 0
+			if c.Renewable {
+				c.RenewLife = 3600
+			}
 		}
 		if i%8 == 7 {
 			w = []string{"L", "O", "W", "G1", "W", "U", "G1", "W", "W", "W", "G2"} // a short outage
